@@ -235,6 +235,31 @@ def wide_tables(draw):
 
 
 @st.composite
+def mid_tables(draw):
+    """Middling sizes: 11-26 objects x 7-16 properties (or transposed), sparse or dense fill, 40-600 concepts typically;
+    optionally some duplicated rows and a few rows that are unions / intersections of others."""
+    n = draw(st.integers(11, 26))
+    m = draw(st.integers(7, 16))
+    full = (1 << m) - 1
+    density = draw(st.sampled_from([1, 2, 2, 3]))
+    rows = [draw(_density_int(m, density)) for _ in range(n)]
+    for _ in range(draw(st.integers(0, 4))):
+        i, a, b = (draw(st.integers(0, n - 1)) for _ in range(3))
+        kind = draw(st.sampled_from(['dup', 'meet', 'join']))
+        rows[i] = rows[a] if kind == 'dup' else (rows[a] & rows[b] if kind == 'meet' else rows[a] | rows[b])
+    rows = [r & full for r in rows]
+    transposed = draw(st.booleans())
+    if transposed:
+        rows = transpose(n, m, rows)
+        n, m = m, n
+    operm = draw(st.permutations(range(n)))
+    pperm = draw(st.permutations(range(m)))
+    case = mk_case(labels('o', operm), labels('p', pperm), rows)
+    case['f'] = 'mid' + ('T' if transposed else '')
+    return case
+
+
+@st.composite
 def index_subsets(draw, size, max_size=None):
     """A subset of range(size) as sorted list (construction, not rejection)."""
     if size == 0:
